@@ -369,7 +369,84 @@ mod verif_cex {
         out
     }
 
-    fn check_db(script: &Script, context: usize, cases: &mut u64) {
+    /// Counters of the marker-line part of the Db harness.
+    #[derive(Default)]
+    struct MarkerStats {
+        /// diffs whose text contains at least one `\ No newline at end of file` line
+        diffs_with_marker_text: u64,
+        /// marker lines that unidiff kept INSIDE a parsed hunk
+        markers_kept_in_hunk: u64,
+        /// marker lines of the diff text that unidiff dropped (they follow the last real line of a hunk)
+        markers_dropped: u64,
+    }
+
+    /// `line_wf` of /verif/contracts/prelude/diff_lines_spec.rs for a marker line (kind Other): no
+    /// line number of either file, directly after a removed line, directly before an added line.
+    fn marker_in_admissible_position(lines: &[Line], k: usize) -> bool {
+        lines[k].source_line_no.is_none()
+            && lines[k].target_line_no.is_none()
+            && k > 0
+            && lines[k - 1].is_removed()
+            && k + 1 < lines.len()
+            && lines[k + 1].is_added()
+    }
+
+    /// A marker line is no line of either file (C01 speaks of lines the diff adds, edits or deletes):
+    /// the result for a diff with marker lines must be the result for the same diff with the marker
+    /// lines deleted. Compared with `==` on the whole list (lines and ranges).
+    fn check_db_marker(diff: &str, script: &Script, context: usize, observed: &[LineChange], stats: &mut MarkerStats) {
+        let marker_lines = diff.lines().filter(|l| l.starts_with('\\')).count() as u64;
+        if marker_lines == 0 {
+            return;
+        }
+        stats.diffs_with_marker_text += 1;
+        let input = json!({"diff_text": diff, "edit": script.to_json(), "context_lines": context});
+        let patch_set = PatchSet::from_str(diff).unwrap();
+        let mut kept = 0u64;
+        for (hi, hunk) in patch_set.files()[0].hunks().iter().enumerate() {
+            let lines = hunk.lines();
+            for k in 0..lines.len() {
+                if lines[k].is_added() || lines[k].is_removed() || lines[k].is_context() {
+                    continue;
+                }
+                kept += 1;
+                if !marker_in_admissible_position(lines, k) {
+                    cex_fail(
+                        "Db",
+                        "a marker line kept inside a parsed hunk is not in the position the contract admits (no line numbers, directly after a removed line, directly before an added line)",
+                        input,
+                        json!("marker_wf(lines, k)"),
+                        json!({"hunk": hi, "line": k, "line_type": lines[k].line_type, "value": lines[k].value}),
+                    );
+                }
+            }
+        }
+        stats.markers_kept_in_hunk += kept;
+        stats.markers_dropped += marker_lines - kept;
+        let without: String = diff.lines().filter(|l| !l.starts_with('\\')).map(|l| format!("{l}\n")).collect();
+        let patch_set_without = match PatchSet::from_str(&without) {
+            Ok(p) => p,
+            Err(e) => cex_fail(
+                "Db",
+                "the diff with its marker lines deleted was rejected by the diff reader",
+                json!({"diff_text_without_marker_lines": without, "diff_text": diff}),
+                json!("parsed"),
+                json!(e.to_string()),
+            ),
+        };
+        let observed_without = line_changes(&patch_set_without.files()[0]);
+        if observed_without != observed {
+            cex_fail(
+                "Db",
+                "line_changes: a `\\ No newline at end of file` marker line is no line of either file, so the result must be the result for the same diff with the marker lines deleted",
+                json!({"diff_text": diff, "diff_text_without_marker_lines": without, "edit": script.to_json(), "context_lines": context}),
+                observed_json(&observed_without),
+                observed_json(observed),
+            );
+        }
+    }
+
+    fn check_db(script: &Script, context: usize, cases: &mut u64, stats: &mut MarkerStats) {
         let diff = format!(
             "diff --git a/f.txt b/f.txt\nindex 1111111..2222222 100644\n{}",
             file_diff("a/f.txt", "b/f.txt", "", script, context)
@@ -415,25 +492,35 @@ mod verif_cex {
                 observed_json(&observed),
             );
         }
+        check_db_marker(&diff, script, context, &observed, stats);
     }
 
     #[test]
     fn cex_Db() {
         let mut cases = 0u64;
+        let mut stats = MarkerStats::default();
         for context in [0usize, 1, 3] {
             for n in 0..=4usize {
                 for script in all_scripts(n, 2, false) {
-                    check_db(&script, context, &mut cases);
+                    check_db(&script, context, &mut cases, &mut stats);
                 }
             }
             for script in all_scripts(5, 1, false) {
-                check_db(&script, context, &mut cases);
+                check_db(&script, context, &mut cases, &mut stats);
             }
+            // files without a final newline (old side, new side, both): `\ No newline at end of file`
+            // marker lines; unidiff keeps the one that stands between the last removed line of the old
+            // file and added lines, and drops those that follow the last real line of a hunk
             for n in 1..=3usize {
-                for script in all_scripts(n, 1, true) {
+                for script in all_scripts(n, 2, true) {
                     if script.old_no_eol || script.new_no_eol {
-                        check_db(&script, context, &mut cases);
+                        check_db(&script, context, &mut cases, &mut stats);
                     }
+                }
+            }
+            for script in all_scripts(4, 1, true) {
+                if script.old_no_eol || script.new_no_eol {
+                    check_db(&script, context, &mut cases, &mut stats);
                 }
             }
         }
@@ -450,12 +537,44 @@ mod verif_cex {
             if script.is_identity() {
                 continue;
             }
-            check_db(&script, rng.next(4) as usize, &mut cases);
+            check_db(&script, rng.next(4) as usize, &mut cases, &mut stats);
+        }
+        // Random larger scripts on files without a final newline; the tail of the old file is deleted
+        // or re-written more often than not, so that a marker line stays inside the last hunk.
+        for _ in 0..1500 {
+            let n = 5 + rng.next(6) as usize;
+            let mut del: Vec<bool> = (0..n).map(|_| rng.next(3) == 0).collect();
+            let mut ins: Vec<usize> = (0..=n).map(|_| if rng.next(4) == 0 { 1 + rng.next(3) as usize } else { 0 }).collect();
+            if rng.next(3) != 0 {
+                del[n - 1] = true;
+                if rng.next(2) == 0 {
+                    del[n - 2] = true;
+                }
+                ins[n] = 1 + rng.next(3) as usize;
+            }
+            let (old_no_eol, new_no_eol) = [(true, false), (true, true), (false, true)][rng.next(3) as usize];
+            let script = Script { del, ins, old_no_eol, new_no_eol };
+            if script.new_lines().is_empty() || script.is_identity() {
+                continue;
+            }
+            check_db(&script, rng.next(4) as usize, &mut cases, &mut stats);
+        }
+        if stats.markers_kept_in_hunk == 0 || stats.markers_dropped == 0 {
+            cex_fail(
+                "Db",
+                "harness inconsistency: the enumeration is meant to contain marker lines that unidiff keeps inside a hunk and marker lines that it drops",
+                json!(null),
+                json!("both counters > 0"),
+                json!({"markers_kept_in_hunk": stats.markers_kept_in_hunk, "markers_dropped": stats.markers_dropped}),
+            );
         }
         cex_none(
             "Db",
             cases,
-            "git-style diff text at -U0/-U1/-U3 for every edit script (delete any subset of lines, insert 0..=2 lines in any gap) on files of 0..=4 lines, 0..=1 insertions per gap on 5 lines, missing-final-newline variants on 1..=3 lines, 1500 random scripts on 6..=12 lines at -U0..-U3; KF1 carve-out: the line of a pure-deletion entry is checked only when the net line offset before it is zero",
+            &format!(
+                "git-style diff text at -U0/-U1/-U3 for every edit script (delete any subset of lines, insert 0..=2 lines in any gap) on files of 0..=4 lines, 0..=1 insertions per gap on 5 lines, missing-final-newline variants (old side, new side, both) with 0..=2 insertions per gap on 1..=3 lines and 0..=1 on 4 lines, 1500 random scripts on 6..=12 lines and 1500 random scripts on 5..=10 lines without a final newline at -U0..-U3; marker lines: {} diffs contain `\\ No newline at end of file` lines, {} marker lines stay inside a parsed hunk (each checked to be in the admissible position: no line numbers, directly after a removed line, directly before an added line), {} are dropped by unidiff (they follow the last real line of a hunk); every diff with marker lines is also run with the marker lines deleted and must give the identical result; KF1 carve-out: the line of a pure-deletion entry is checked only when the net line offset before it is zero",
+                stats.diffs_with_marker_text, stats.markers_kept_in_hunk, stats.markers_dropped
+            ),
         );
     }
 
